@@ -353,3 +353,28 @@ def terminate_event_clause(ctx, res, clause, prop, cid):
         res.add(Finding(prop, cid, 'R-ABSINT', ww.file, ww.qualname, ww.node.lineno, 'terminate event left set',
                         'the dispatch routine can be left (%s) with the shared terminate event still set: every worker created afterwards exits '
                         'immediately, so all later recordings fail although they are fine' % n.info['exit'], witness=dw.path_to(n, s), exit=n.info['exit']))
+
+
+def dispatch_once_clause(ctx, res, clause, prop, cid):
+    """one call of the dispatch routine hands the recording to a worker at most once (no silent second replay)"""
+    repo = ctx.repo
+    eq = em.equalizer(repo)
+    excm = ctx.excm(em.EQ_SCOPE)
+    pol = em.EqPolicy(repo, excm)
+    ww = em.EqRoles(repo).dispatch
+    qfields = {f for (c, f), t in pol.field_types.items() if c == eq.name and t == ('lib', 'multiprocessing.Queue')}
+    taskq = None
+    for n in ast.walk(ww.node):
+        if isinstance(n, ast.Call) and isinstance(n.func, ast.Attribute) and n.func.attr == 'put' and self_attr(n.func.value) in qfields:
+            taskq = self_attr(n.func.value)
+    if taskq is None:
+        raise AnalysisError('anchor-lost role=task queue of the dispatch routine')
+    dw = small.analyse(repo, excm, ww, policy=InlineEq(repo, excm), domain=em.EqDomain)
+    clause.evaluations += dw.visited_pairs
+    badp = [(n, s) for n, s in dw.exits if s.extra.get(('n', '%s.put' % taskq), 0) > 1]
+    clause.instance('the dispatch routine queues its task at most once per call (%d exits)' % len(dw.exits), ww.qualname, not badp)
+    if badp:
+        n, s = badp[0]
+        res.add(Finding(prop, cid, 'R-ABSINT', ww.file, ww.qualname, ww.node.lineno, 'task queued more than once',
+                        'one call of the dispatch routine can queue the recording more than once: the recording is replayed twice',
+                        witness=dw.path_to(n, s)))
